@@ -18,7 +18,7 @@ GUARD_NAME = re.compile(r"volatil|ref_?count|reference_count|num_references|sing
 
 
 def run(ctx):
-    return _rule_cte(ctx) + [rule_groupidx(ctx["facts"])]
+    return _rule_cte(ctx) + [rule_groupidx(ctx["facts"]), rule_matshare(ctx["facts"])]
 
 
 def _rule_cte(ctx):
@@ -144,3 +144,142 @@ CLAIM = {
     "note": "trusted: rustc MIR; guard recognised by callee / field names matching volatile|ref_count|single_use (documented in rules/c09.py)",
     "technique": "static analysis: MIR edge-dominance guard rule (rustc_private driver)",
 }
+
+
+MATSCAN = "glaredb_core::logical::logical_materialization::LogicalMaterializationScan"
+
+
+def _reads_scan_count(facts):
+    """functions (outside the counter's own increment) that read Materialization.scan_count"""
+    out = []
+    for rec in facts.all_fns(["glaredb_core"]):
+        if "scan_count" not in str(rec["bbs"]) or "::tests::" in rec["id"]:
+            continue
+        fn = Fn(rec)
+        for b, i, pl, rv, ln in fn.assigns():
+            def has_read(x):
+                if isinstance(x, list):
+                    if len(x) == 2 and x[0] in ("c", "m") and isinstance(x[1], list) and len(x[1]) == 2 and isinstance(x[1][1], list):
+                        return any(isinstance(p, list) and p[0] == "f" and p[1] == "scan_count" and "Materialization" in p[2] for p in x[1][1])
+                    return any(has_read(y) for y in x)
+                return False
+            if has_read(rv):
+                # the read-modify-write of the counter itself does not count
+                wr = any(isinstance(p, list) and p[0] == "f" and p[1] == "scan_count" for p in pl[1])
+                feeds_own = False
+                for b2, i2, pl2, rv2, ln2 in fn.assigns():
+                    if any(isinstance(p, list) and p[0] == "f" and p[1] == "scan_count" for p in pl2[1]) and pl[0] in _locals_of(rv2):
+                        feeds_own = True
+                if not wr and not feeds_own:
+                    out.append((fn.id, ln))
+    return out
+
+
+def _locals_of(rv):
+    from .mir import operand_locals
+    return operand_locals(rv, set())
+
+
+def rule_matshare(facts):
+    """A materialized CTE / decorrelation materialization is one plan shared by all of its scans. (A) The optimizer may push the
+    filters above one scan into the shared plan only if that scan is the only one - i.e. under a test of the scan count. (B) Such a
+    test is only as good as the counter: every construction of a MaterializationScan node is paired with an increment of the
+    materialization's scan count on every successful path. B is enforced as soon as anything reads the counter."""
+    r = RuleResult("C09-MATSHARE", "filters above one MaterializationScan never enter the shared materialized plan except under a scan-count test, and "
+                   "the scan count is incremented on every path that builds a MaterializationScan", floor=4)
+    # ---- (A)
+    guard_exists = False
+    recs = facts.fns_matching(lambda i: "optimizer::filter_pushdown::FilterPushdown" in i and "materializ" in i.rsplit("::", 1)[-1])
+    if not recs:
+        r.missing_anchor("FilterPushdown::pushdown_materialized_scan")
+    for rec in recs:
+        fn = Fn(rec)
+        r.functions.add(fn.id)
+        nested = [c for c in fn.calls() if c.name.endswith("FilterPushdown::optimize") or c.name.endswith("OptimizeRule>::optimize")]
+        # nested instance = receiver of optimize that is not `self`
+        for c in nested:
+            o = fn.origin(c.args[0], at=c.bb)
+            if o[0] == "arg" and o[1] == 1:
+                continue
+            recv = o[1] if o[0] == "local" else None
+            feeds = []
+            for x in fn.calls():
+                if x is c or not x.args:
+                    continue
+                ox = fn.origin(x.args[0], at=x.bb)
+                if ox[0] == "local" and ox[1] == recv and ox[1] is not None and not x.name.endswith("::default") and x.bb != c.bb:
+                    # something is put into the nested pushdown: does it come from self's filters?
+                    feeds.append(x)
+            ok = True
+            for x in feeds:
+                guarded = False
+                for b in range(fn.n):
+                    t = fn.term(b)
+                    if t[0] != "switch":
+                        continue
+                    for s_ in fn.bbs[b]["s"] + [s2 for p in fn.pred[b] for s2 in fn.bbs[p]["s"]]:
+                        if s_[0] == "a" and "scan_count" in str(s_[2]) and s_[2][0] in ("bin", "use"):
+                            pass
+                    src = fn.origin(t[1], at=b) if t[1][0] in ("c", "m") else None
+                    txt = str(src)
+                    if "scan_count" in txt and any(fn.edge_dominates(b, tg, x.bb) for _v, tg in switch_edges(t)):
+                        guarded = True
+                if not guarded:
+                    # look through bool temporaries: `let single = mat.scan_count == 1; … if single {`
+                    for b, i, pl, rv, ln in fn.assigns():
+                        if rv[0] == "bin" and rv[1] in ("Eq", "Le", "Lt") and "scan_count" in str(rv) and not pl[1]:
+                            L = pl[0]
+                            for b2 in range(fn.n):
+                                t2 = fn.term(b2)
+                                if t2[0] == "switch" and t2[1][0] in ("c", "m"):
+                                    o2 = fn.origin(t2[1], at=b2)
+                                    root = t2[1][1][0]
+                                    chain = {root}
+                                    for _ in range(6):
+                                        for d in list(chain):
+                                            for dd in fn.defs.get(d, []):
+                                                if dd[0] == "a":
+                                                    chain |= _locals_of(dd[3])
+                                    if L in chain and any(fn.edge_dominates(b2, tg, x.bb) for _v, tg in switch_edges(t2)):
+                                        guarded = True
+                if guarded:
+                    guard_exists = True
+                else:
+                    ok = False
+            r.call_sites += 1
+            r.inst({"fn": fn.id, "nested_pushdown_fed_by": [x.name.rsplit("::", 1)[-1] for x in feeds], "under_scan_count_test": ok}, ok)
+            if not ok:
+                r.violate(fn.id, "filters-into-shared-materialization", "filters collected above one MaterializationScan are handed to the optimizer of the shared "
+                          "materialized plan without a scan-count test: every other scan of the same CTE/materialization sees the filtered rows",
+                          rec["file"], c.line)
+    readers = _reads_scan_count(facts)
+    load_bearing = bool(readers) or guard_exists
+    # ---- (B)
+    nsites = 0
+    for rec in facts.all_fns(["glaredb_core"]):
+        if MATSCAN not in str(rec["bbs"]) or "::tests::" in rec["id"]:
+            continue
+        if rec["id"].endswith("as std::clone::Clone>::clone"):
+            r.exempt(rec["id"], "derived Clone of the node itself: whoever clones a plan accounts for the copy (SubqueryPlanner does), not the impl")
+            continue
+        fn = Fn(rec)
+        ctors = [(b, ln) for b, i, pl, rv, ln in fn.assigns() if rv[0] == "agg" and rv[1][0] == "adt" and rv[1][1] == MATSCAN]
+        if not ctors:
+            continue
+        incs = [c.bb for c in fn.calls() if c.name.endswith("inc_materialization_scan_count")]
+        errs = [c.bb for c in fn.calls() if c.name.endswith("from_residual")]
+        r.functions.add(fn.id)
+        for b, ln in ctors:
+            nsites += 1
+            before = b in fn.reach(0, avoid_blocks=incs, threaded=False) if b not in incs else False
+            after_exits = [e for e in fn.exits if e in fn.reachable_from(b, avoid=incs + errs)]
+            ok = not (before and after_exits)
+            r.inst({"fn": fn.id, "scan_node_line": ln, "increments": len(incs), "paired_on_every_path": ok, "counter_is_read": load_bearing}, ok or not load_bearing)
+            if not ok and load_bearing:
+                r.violate(fn.id, "scan-without-count", f"a MaterializationScan is built at line {ln} on a path that never increments the materialization's scan count, "
+                          f"and the count is consulted ({(readers or [('the pushdown guard', 0)])[0][0].rsplit('::', 1)[-1]}): a materialization scanned twice looks "
+                          "single-use and rewrites that are only sound for a single scan are applied to the shared plan", rec["file"], ln)
+    if nsites < 3:
+        r.missing_anchor(f"LogicalMaterializationScan construction sites (found {nsites}, expected at least 3)")
+    r.notes.append(f"scan_count readers: {readers or 'none (pairing recorded, not yet load-bearing)'}")
+    return r
